@@ -18,7 +18,7 @@ PLANS["C01"] = Plan(
                E2 + ":__move_down", E2 + ":__move_left", E2 + ":_decode"],
     explanation="decoders: every row inside the bin, same-bin rows pairwise disjoint, id/size/rotation, bins 1..k gap-free "
                 "(ghost witness rows), bin count, every stored value within the instance dtype",
-    bounded=[bounded.bl_reference.harness],
+    bounded=[bounded.bl_reference.harness_feasible],
     trusted=["E1: int_range_to_dtype returns a type containing the requested range",
              "E2: moptipy SignedPermutations keeps the multiset of item ids (x[k] != 0, |x[k]| <= n_different_items)"],
 )
